@@ -1143,8 +1143,12 @@ fn fuzz_phase<P: Property>(
         .map(PathBuf::from)
         .unwrap_or_else(|_| Path::new(VERIF_ROOT.as_str()).join("work/target-fuzz/x86_64-unknown-linux-gnu/release"));
     let mut targets = vec!["prop"];
-    if id == "C03" {
+    if id == "C03" || id == "C20" {
         targets.push("raw_doc");
+    }
+    // VERIF_FUZZ_TARGETS=raw_doc: only the named targets (sensitivity measurements)
+    if let Ok(only) = std::env::var("VERIF_FUZZ_TARGETS") {
+        targets.retain(|t| only.split(',').any(|o| o == *t));
     }
     let mut out = vec![];
     for target in targets {
@@ -1158,6 +1162,9 @@ fn fuzz_phase<P: Property>(
         let corpus = dir.join("corpus");
         std::fs::create_dir_all(&corpus).expect("fuzz corpus dir");
         let max_len: usize = if target == "raw_doc" { 2048 } else { 4096 };
+        // the byte-level C20 case costs about a tenth of a millisecond (no generator, no server):
+        // it gets 25 times the runs of the structured target
+        let runs = if target == "raw_doc" && id == "C20" { runs * 25 } else { runs };
         // starting corpus: pseudo-random files of several lengths (libFuzzer ramps lengths slowly
         // from an empty corpus); for the raw target also a few Markdown snippets
         let mut x = hash64(format!("{}-{}-{}", id, target, opts.seed).as_bytes()) | 1;
@@ -1176,6 +1183,20 @@ fn fuzz_phase<P: Property>(
         if target == "raw_doc" {
             for (i, snip) in RAW_SNIPPETS.iter().enumerate() {
                 let _ = std::fs::write(corpus.join(format!("md-{:02}", i)), snip.as_bytes());
+            }
+            if id == "C20" {
+                // header (flags, op count, ops) + several snippets cut by 0xFF: a history over versions
+                for i in 0..RAW_SNIPPETS.len() {
+                    let mut buf: Vec<u8> = vec![i as u8, 5, 0, 0, 0, 3, 8, 1, 0, 4, 6, 0, 9, 1, 5, 2, 0, 1];
+                    for j in 0..6 {
+                        buf.extend_from_slice(RAW_SNIPPETS[(i + j) % RAW_SNIPPETS.len()].as_bytes());
+                        if j % 2 == 0 {
+                            buf.extend_from_slice(b"\n[a](a)\n\n- [b](d/b)\n\n| t | u |\n|---|---|\n| 1 | 2 |\n\nafter table [x](../a)\n");
+                        }
+                        buf.push(0xFF);
+                    }
+                    let _ = std::fs::write(corpus.join(format!("lib-{:02}", i)), &buf);
+                }
             }
         }
         let cfg = crate::fuzzing::FuzzCfg {
@@ -1346,7 +1367,11 @@ fn fuzz_phase<P: Property>(
         }
         out.push(json!({
             "target": target,
-            "engine": "libFuzzer (cargo-fuzz 0.13, -O, no sanitizer), bytes -> proptest strategy via pass-through RNG; oracle in target",
+            "engine": if target == "raw_doc" {
+                "libFuzzer (cargo-fuzz 0.13, -O, no sanitizer), bytes are the note text(s) themselves (lossy UTF-8, no generator); oracle in target"
+            } else {
+                "libFuzzer (cargo-fuzz 0.13, -O, no sanitizer), bytes -> proptest strategy via pass-through RNG; oracle in target"
+            },
             "jobs": jobs,
             "runs_per_job": runs,
             "executions": tot.get("execs").cloned().unwrap_or(0),
